@@ -72,11 +72,15 @@ def run_script(R, exe, env, script, out, n, stderr_path):
         with open(stderr_path, "a") as fh:
             fh.write(r.stderr[-6000:])
         last = None
-        for l in open(o):
+        for l in open(o, errors="replace"):
             if l.startswith('{"i"'):
-                last = json.loads(l)
+                try:
+                    last = json.loads(l)
+                except ValueError:
+                    pass
         if last is None or r.returncode not in (70, 71, 72):
-            raise vlib.MachineryError("contract driver failed rc=%d: %s" % (r.returncode, r.stderr[-2000:]))
+            raise vlib.MachineryError("contract driver failed rc=%d on %s (last complete record %s): %s"
+                                      % (r.returncode, os.path.basename(script), (last or {}).get("i"), r.stderr[-2000:]))
         start = last["i"] + 1
         restarts += 1
     with open(out, "w") as fh:
